@@ -1,2 +1,289 @@
-/-! stub: replaced by the Viz group driver -/
-def main : IO Unit := pure ()
+import MesaModel.Model.Viz
+/-!
+Line-protocol driver for the Viz model (C20).  One output line per input line.
+Producer: harness/viz_common.py.
+
+  scenario space FAM W H [ints…]     reset; FAM ∈ single multi hexs hexm moore vn hex netgrid net vor cs xcs;
+                                     extra ints: network node labels in graph order / Voronoi centroids x y x y …
+  scenario params                    reset
+
+ space scenarios
+  dict R k=v k=v …                   (re)define heap dict R (R ≤ number of dicts)
+  portray A R | portray A -          the portrayal returns dict R (or a fresh empty dict) for agent A
+  place A X Y | move A X Y | remove A | ghost A
+  collect | collectd COLOR SIZE MARKER ZORDER
+  draw | altair | heap | drawc | altairc   (…c: through the solara component)
+  layer v…                           property layer values, x-major (W*H ints)
+  drawlayer cmap|color|cmapauto|colorauto
+
+ params scenarios
+  sig NAME:KIND:d|n …                KIND ∈ po pk vp ko vk
+  check KEY…
+  split KEY:slider | KEY:val | KEY:dict[+k…] …
+  creator (same tokens)
+-/
+open Mesa.Viz
+
+def words (s : String) : List String := (s.splitOn " ").filter (· ≠ "")
+
+def strLe (a b : String) : Bool := !(decide (b < a))
+
+def parseFam : String → Option Family
+  | "single" => some .single | "multi" => some .multi | "hexs" => some .hexs | "hexm" => some .hexm
+  | "moore" => some .moore | "vn" => some .vn | "hex" => some .hex
+  | "netgrid" => some .netgrid | "net" => some .net | "vor" => some .vor
+  | "cs" => some .cs | "xcs" => some .xcs
+  | _ => none
+
+def parseKV (s : String) : Option (Key × Val) :=
+  match s.splitOn "=" with
+  | [k, v] =>
+    if k = "" || v = "" then none
+    else if k = "zorder" && v.toInt?.isNone then none
+    else some (k, v)
+  | _ => none
+
+def pairUp : List Int → Option (List Loc)
+  | [] => some []
+  | x :: y :: rest => (pairUp rest).map (⟨x, y⟩ :: ·)
+  | _ => none
+
+def parseExtra (fam : Family) (ws : List String) : Option (List Loc) := do
+  let ints ← ws.mapM (·.toInt?)
+  match fam with
+  | .netgrid | .net => pure (ints.map fun n => ⟨n, 0⟩)
+  | .vor => pairUp ints
+  | _ => if ints.isEmpty then pure [] else none
+
+structure St where
+  space : Option Space := none
+  params : Bool := false
+  heap : Heap := []
+  portray : List (Nat × Ref) := []
+  layer : Option Layer := none
+  sig : Option (List Param) := none
+
+def St.portrayal (st : St) : Portrayal := fun a => st.portray.lookup a
+
+def orDash (s : String) : String := if s = "" then "-" else s
+
+def fmtOpt : Option Val → String
+  | none => "-"
+  | some v => v
+
+def fmtCore (e : Entry) : String := s!"{e.loc.x},{e.loc.y},{e.s},{e.c},{e.marker},{e.zorder}"
+
+def fmtCollect (es : List Entry) : String :=
+  let head := s!"ok n={es.length}"
+  let body := es.foldl (fun acc e => acc ++ " | " ++ fmtCore e) head
+  let ign := (es.filter (fun e => !e.ignored.isEmpty)).map fun e => "+".intercalate e.ignored
+  body ++ s!" # alpha={orDash ("+".intercalate (alphas es))} edgecolors={orDash ("+".intercalate (edgecolorss es))}"
+       ++ s!" linewidths={orDash ("+".intercalate (linewidthss es))} ign={orDash ("/".intercalate ign)}"
+
+def fmtMarker (e : Entry) : String :=
+  s!"{e.loc.x},{e.loc.y},{e.s},{e.c},{fmtOpt e.alpha},{fmtOpt e.edgecolors},{fmtOpt e.linewidths}"
+
+def groupLe (a b : Group) : Bool :=
+  if a.marker = b.marker then decide ((a.zorder.toInt?.getD 0) ≤ (b.zorder.toInt?.getD 0)) else strLe a.marker b.marker
+
+def fmtGroup (g : Group) : String :=
+  g.members.foldl (fun acc e => acc ++ " " ++ fmtMarker e) s!"{g.marker} {g.zorder} n={g.members.length}"
+
+def fmtDraw (gs : List Group) : String :=
+  (gs.mergeSort groupLe).foldl (fun acc g => acc ++ " | " ++ fmtGroup g) "ok"
+
+def fmtErr : Err → String
+  | .index => "err Index"
+  | .attribute => "err Attribute"
+  | .notImplemented => "err NotImplemented"
+
+def fmtDict (d : Dict) : String :=
+  ",".intercalate ((d.mergeSort fun a b => strLe a.1 b.1).map fun kv => s!"{kv.1}={kv.2}")
+
+def fmtAltair (rows : List Dict) : String :=
+  let enc := (if altairEncodes rows "color" then ["color"] else []) ++ (if altairEncodes rows "size" then ["size"] else [])
+  rows.foldl (fun acc r => acc ++ " | " ++ orDash (fmtDict r)) s!"ok enc={orDash ("+".intercalate enc)}"
+
+def fmtHeap (h : Heap) : String :=
+  (h.zipIdx.foldl (fun acc (d, i) => acc ++ s!" {i}:" ++ "{" ++ fmtDict d ++ "}") "ok")
+
+def fmtOptInt : Option Int → String
+  | none => "?"
+  | some v => toString v
+
+def fmtLayer (fam : Family) (L : Layer) : String :=
+  if fam.isOrthogonal then
+    (imshowRows L).zipIdx.foldl (fun acc (row, r) => acc ++ s!" r{r}=" ++ ",".intercalate (row.map fmtOptInt)) "ok img"
+  else if fam.isHex then
+    (hexColors L).zipIdx.foldl (fun acc (v, k) => acc ++ s!" {k % L.w},{k / L.w}={fmtOptInt v}") "ok hex"
+  else "err NotImplemented"
+
+def parseKind : String → Option Kind
+  | "po" => some .posOnly | "pk" => some .posOrKw | "vp" => some .varPos
+  | "ko" => some .kwOnly | "vk" => some .varKw
+  | _ => none
+
+def parseParam (s : String) : Option Param :=
+  match s.splitOn ":" with
+  | [n, k, d] => do
+    let kind ← parseKind k
+    let hd ← (if d = "d" then some true else if d = "n" then some false else none)
+    if n = "" then none else pure { name := n, kind, hasDefault := hd }
+  | _ => none
+
+def parsePyVal (s : String) : Option (String × PyVal) :=
+  match s.splitOn ":" with
+  | [k, v] =>
+    if k = "" then none
+    else if v = "slider" then some (k, .slider)
+    else if v = "val" then some (k, .other)
+    else match v.splitOn "+" with
+      | "dict" :: ks => if ks.all (· ≠ "") then some (k, .dict ks) else none
+      | _ => none
+  | _ => none
+
+def fmtCheck : Except CheckErr Unit → String
+  | .ok () => "ok accept"
+  | .error .varPositional => "err args"
+  | .error .noInstance => "err noinstance"
+  | .error (.positionalOnly n) => s!"err posonly {n}"
+  | .error (.missing n) => s!"err missing {n}"
+  | .error (.invalid n) => s!"err invalid {n}"
+
+def fmtNames (ps : List (String × PyVal)) : String := orDash (",".intercalate (ps.map (·.1)))
+
+def withSpace (st : St) (f : Space → St × String) : St × String :=
+  match st.space with
+  | none => (st, "bad-op")
+  | some sp => f sp
+
+def upd (st : St) (r : Option Space) : St × String :=
+  match r with
+  | none => (st, "err Invalid")
+  | some sp => ({ st with space := some sp }, "ok")
+
+def stepLine (st : St) (ws : List String) : St × String :=
+  match ws with
+  | "scenario" :: "space" :: fam :: w :: h :: extra =>
+    match parseFam fam, w.toNat?, h.toNat? with
+    | some fam, some w, some h =>
+      match parseExtra fam extra with
+      | none => (st, "bad-op")
+      | some ex =>
+        match Space.init? fam w h ex with
+        | none => (st, "bad-op")
+        | some sp => ({ space := some sp }, "ok")
+    | _, _, _ => (st, "bad-op")
+  | ["scenario", "params"] => ({ params := true }, "ok")
+  | "dict" :: r :: kvs =>
+    withSpace st fun _ =>
+      match r.toNat?, kvs.mapM parseKV with
+      | some r, some kvs =>
+        let d := Dict.ofList kvs
+        if r < st.heap.length then ({ st with heap := st.heap.set r d }, "ok")
+        else if r = st.heap.length then ({ st with heap := st.heap ++ [d] }, "ok")
+        else (st, "bad-op")
+      | _, _ => (st, "bad-op")
+  | ["portray", a, r] =>
+    withSpace st fun _ =>
+      match a.toNat? with
+      | none => (st, "bad-op")
+      | some a =>
+        let others := st.portray.filter (·.1 != a)
+        if r = "-" then ({ st with portray := others }, "ok")
+        else match r.toNat? with
+          | some r => if r < st.heap.length then ({ st with portray := (a, r) :: others }, "ok") else (st, "bad-op")
+          | none => (st, "bad-op")
+  | ["place", a, x, y] =>
+    withSpace st fun sp =>
+      match a.toNat?, x.toInt?, y.toInt? with
+      | some a, some x, some y => upd st (sp.place a ⟨x, y⟩)
+      | _, _, _ => (st, "bad-op")
+  | ["move", a, x, y] =>
+    withSpace st fun sp =>
+      match a.toNat?, x.toInt?, y.toInt? with
+      | some a, some x, some y => upd st (sp.move a ⟨x, y⟩)
+      | _, _, _ => (st, "bad-op")
+  | ["remove", a] =>
+    withSpace st fun sp =>
+      match a.toNat? with
+      | some a => upd st (sp.remove a)
+      | none => (st, "bad-op")
+  | ["ghost", a] =>
+    withSpace st fun _ => if a.toNat?.isSome then (st, "ok") else (st, "bad-op")
+  | ["collect"] =>
+    withSpace st fun sp =>
+      match collectAgentData libDefaults st.heap st.portrayal (spaceAgents sp) with
+      | none => (st, "err Attribute")
+      | some es => (st, fmtCollect es)
+  | ["collectd", c, s, m, z] =>
+    withSpace st fun sp =>
+      if z.toInt?.isNone then (st, "bad-op") else
+      match collectAgentData { color := c, size := s, marker := m, zorder := z } st.heap st.portrayal (spaceAgents sp) with
+      | none => (st, "err Attribute")
+      | some es => (st, fmtCollect es)
+  | ["drawc"] =>   -- through the solara component SpaceMatplotlib: the same draw_space call
+    withSpace st fun sp =>
+      match drawSpace sp st.heap st.portrayal with
+      | .ok gs => (st, fmtDraw gs)
+      | .error e => (st, fmtErr e)
+  | ["draw"] =>
+    withSpace st fun sp =>
+      match drawSpace sp st.heap st.portrayal with
+      | .ok gs => (st, fmtDraw gs)
+      | .error e => (st, fmtErr e)
+  | ["altairc"] =>   -- through the solara component SpaceAltair: the same _draw_grid call
+    withSpace st fun sp =>
+      match altairRows sp st.heap st.portrayal with
+      | .ok rows => (st, fmtAltair rows)
+      | .error e => (st, fmtErr e)
+  | ["altair"] =>
+    withSpace st fun sp =>
+      match altairRows sp st.heap st.portrayal with
+      | .ok rows => (st, fmtAltair rows)
+      | .error e => (st, fmtErr e)
+  | ["heap"] => withSpace st fun _ => (st, fmtHeap st.heap)
+  | "layer" :: vs =>
+    withSpace st fun sp =>
+      match vs.mapM (·.toInt?) with
+      | none => (st, "bad-op")
+      | some vals =>
+        let L : Layer := { w := sp.w, h := sp.h, vals }
+        if L.wellFormed then ({ st with layer := some L }, "ok") else (st, "bad-op")
+  | ["drawlayer", mode] =>
+    -- the mode (colormap / single colour, explicit / automatic range) only changes colours, not orientation
+    withSpace st fun sp =>
+      match st.layer with
+      | none => (st, "bad-op")
+      | some L => if ["cmap", "color", "cmapauto", "colorauto"].contains mode then (st, fmtLayer sp.fam L) else (st, "bad-op")
+  | "sig" :: ps =>
+    if !st.params then (st, "bad-op") else
+    match ps.mapM parseParam with
+    | some sig => ({ st with sig := some sig }, "ok")
+    | none => (st, "bad-op")
+  | "check" :: keys =>
+    match st.params, st.sig with
+    | true, some sig => (st, fmtCheck (checkModelParams sig keys))
+    | _, _ => (st, "bad-op")
+  | "split" :: ps =>
+    if !st.params then (st, "bad-op") else
+    match ps.mapM parsePyVal with
+    | some ps => let (u, f) := splitModelParams ps; (st, s!"ok input={fmtNames u} fixed={fmtNames f}")
+    | none => (st, "bad-op")
+  | "creator" :: ps =>
+    match st.params, st.sig, ps.mapM parsePyVal with
+    | true, some sig, some ps => (st, fmtCheck (creatorCheck sig ps))
+    | _, _, _ => (st, "bad-op")
+  | _ => (st, "bad-op")
+
+partial def loop (h : IO.FS.Stream) (out : IO.FS.Stream) (st : St) : IO Unit := do
+  let line ← h.getLine
+  if line.isEmpty then return ()
+  let (st', o) := stepLine st (words line.trimAscii.toString)
+  out.putStrLn o
+  loop h out st'
+
+def main : IO Unit := do
+  let out ← IO.getStdout
+  loop (← IO.getStdin) out {}
+  out.flush
